@@ -60,7 +60,7 @@ use crate::simnet::{addr_of, now_ms, run_sim, Policy, SimNet, Verdict, WireLog};
 
 pub const DEV_PW: u32 = 20202021;
 const FAB: u64 = 7;
-const DEV_NODE: u64 = 200;
+pub const DEV_NODE: u64 = 200;
 /// datagram storm guard
 const CAP: u64 = 4000;
 
@@ -348,7 +348,7 @@ pub fn num(m: &std::collections::HashMap<String, String>, k: &str) -> Option<u64
     m.get(k).and_then(|v| v.parse().ok())
 }
 
-fn install_fabric<C: Crypto>(crypto: &C, keys: &Keys, m: &Matter, node: u64) -> Option<core::num::NonZeroU8> {
+pub fn install_fabric<C: Crypto>(crypto: &C, keys: &Keys, m: &Matter, node: u64) -> Option<core::num::NonZeroU8> {
     let p = GenP { fab: FAB, node, cats: vec![], rca: 3, ica: None, nb: 1, na: 0, kr: 0, ki: 1, kn: if node == DEV_NODE { 4 } else { 2 } };
     let (root, _icac, noc) = gen_records(&p);
     let rb = mint(crypto, keys, &root).ok()?;
@@ -437,7 +437,7 @@ fn new_sessions(dev: &Matter, before: &[u32], want_case: bool) -> usize {
     })
 }
 
-fn session_ids(m: &Matter) -> Vec<u32> {
+pub fn session_ids(m: &Matter) -> Vec<u32> {
     m.with_state(|st| st.verif_sessions().iter().map(|s| s.id()).collect())
 }
 
@@ -450,7 +450,7 @@ pub struct SysResult {
 }
 
 /// kinds of handshake an initiator performs
-async fn perform<'a, C: Crypto>(kind: &str, _ctl: &'a Matter<'a>, crypto: &'a C, fab: Option<core::num::NonZeroU8>, pw: u32, ex: Exchange<'a>) -> Result<(), Error> {
+pub async fn perform<'a, C: Crypto>(kind: &str, _ctl: &'a Matter<'a>, crypto: &'a C, fab: Option<core::num::NonZeroU8>, pw: u32, ex: Exchange<'a>) -> Result<(), Error> {
     if kind == "case" {
         CaseInitiator::perform(ex, crypto, fab.ok_or(ErrorCode::NotFound)?, DEV_NODE).await
     } else {
@@ -459,7 +459,7 @@ async fn perform<'a, C: Crypto>(kind: &str, _ctl: &'a Matter<'a>, crypto: &'a C,
 }
 
 /// after a successful handshake: the session it created on the initiator's side
-fn newest_secure_session(ctl: &Matter, before: &[u32]) -> Option<u32> {
+pub fn newest_secure_session(ctl: &Matter, before: &[u32]) -> Option<u32> {
     ctl.with_state(|st| {
         st.verif_sessions()
             .iter()
